@@ -19,7 +19,10 @@ RULE = ("(round) catalogue of cache sizes around the 128-entry block (0,1,2,127.
         "restarted, extra empty restarts, items stored after the flush), the lazy_cache_ttl setting of the dumping and of the "
         "loading cache as a dimension (off/on, on/on, on/off, different values; items shaped like saveRespToCache's NXDOMAIN 30 s, "
         "SERVFAIL 5 s and empty-answer entries whose cache expiry is NOT stored + lazy ttl, lazy-style positive entries, plain "
-        "ones): every entry must come back with the dumped cache expiry, message expiry and stored time, via the direct calls, "
+        "ones): every entry must come back with the dumped cache expiry, message expiry and stored time, dumps whose COMPRESSED "
+        "size exceeds 1 MiB (36 x 50 KB and 330 x 5 KB random, hardly compressible answers, 2-3 blocks, ~1.5 MB files) through "
+        "GET /dump -> POST /load_dump and through the dump_file route (the per-block limit must not bound the whole upload), "
+        "via the direct calls, "
         "the /dump + /load_dump handlers and Args.DumpFile (Close -> file -> NewCache), then seeded random caches of 0-300 "
         "items with random ages, expiries and whole-second / last-nanosecond boundaries; "
         "(load) hand-described plaintexts (valid, empty, expired, undecodable blocks, bad DNS messages, announced lengths at "
